@@ -277,7 +277,7 @@ def cases(ctx: Ctx):
     ts = t_slots()
     for present in subsets_edge(ts, 2):
         yield {"k": "cmd", "cmd": t_desc(rng, present, rnd_data(rng))}
-    for _ in range(8000 if quick else 40000):
+    for _ in range(8000 if quick else 100000):
         present = [s for s in ts if rng.random() < rng.choice([0.15, 0.5, 0.85])]
         yield {"k": "cmd", "cmd": t_desc(rng, present, rnd_data(rng)), "stream": rng.choice(["bytes", "bytes", "bytesio"])}
     # every enum member x boundary ints on a fixed shape
@@ -325,7 +325,7 @@ def cases(ctx: Ctx):
         for dd in [None, False, True]:
             yield {"k": "cmd", "cmd": {"type": "D", "f": {"what": w, "delete_data": dd, "image_id": rng.choice(BOUNDARY)}}}
     if not quick:
-        for _ in range(15000):
+        for _ in range(60000):
             typ = rng.choice(["P", "D", "M"])
             flds = {"P": PUT_FIELDS, "D": D_FIELDS, "M": M_FIELDS}[typ]
             present = [s for s in flds if rng.random() < 0.5]
